@@ -10,7 +10,7 @@ change of one of these expressions in the source breaks the corresponding bridge
 namespace Mouette.Props.C12G
 open Mouette.Prim
 namespace G
-export Mouette.Generated.C12 (cross0 cross1 cross2 det2 det3 rot2x rot2y rotaxx rotaxy rotaxz parallelThreshold segmentThreshold)
+export Mouette.Generated.C12 (cross0 cross1 cross2 det2 det3 rot2x rot2y rotaxx rotaxy rotaxz parallelThreshold segmentThreshold parallelRelative parallelClosed)
 end G
 
 theorem gen_cross_eq (A B : V3) :
@@ -35,6 +35,15 @@ theorem gen_rotax_eq (inp u : V3) (c s : Rat) :
       G.rotaxz inp.x inp.y inp.z u.x u.y u.z c s⟩ : V3) = rotAxis inp u c s := by
   simp only [Mouette.Generated.C12.rotaxx, Mouette.Generated.C12.rotaxy, Mouette.Generated.C12.rotaxz, rotAxis] <;>
   first | rfl | (congr 1 <;> ring)
+
+/-- the parallelism test of `intersect_2lines2D` in the source is RELATIVE to the lengths of both directions and closed (`<=`) -/
+theorem gen_parallel_relative : G.parallelRelative = true ∧ G.parallelClosed = true := ⟨rfl, rfl⟩
+
+/-- the model's test `parallel2` is the source's `|det(d1,d2)| ≤ c·|d1|·|d2|` with the extracted factor `c`, on the squares -/
+theorem gen_parallel_test (d1 d2 : V2) :
+    parallel2 d1 d2 = decide (det2 d1 d2 * det2 d1 d2 ≤ G.parallelThreshold * G.parallelThreshold * V2.norm2 d1 * V2.norm2 d2) := by
+  simp only [parallel2, Mouette.Generated.C12.parallelThreshold, eps12]
+  norm_num
 
 theorem gen_thresholds_eq : G.parallelThreshold = eps12 ∧ G.segmentThreshold = eps12 := by
   constructor <;> simp only [Mouette.Generated.C12.parallelThreshold, Mouette.Generated.C12.segmentThreshold, eps12] <;> (first | rfl | norm_num)
